@@ -1439,6 +1439,16 @@ pub fn gen_scale_case(r: &mut Prng, p: &Profile) -> Case {
                     let e = bin("xor", var(&vn(i)), var(&vn(i / 2)));
                     stmts.push(GStmt::Row(mk_row(r, GEntry::Expr(e))));
                 }
+                if i % 100 == 99 || i + 1 == n {
+                    // a scope opened and closed on top of all those variables; they are all still there afterwards
+                    let inner = vec![
+                        GStmt::Let("tmp".into(), bin("add", var(&vn(i)), var("q"))),
+                        GStmt::Row(mk_row(r, GEntry::Expr(var("tmp")))),
+                    ];
+                    stmts.push(GStmt::Loop("q".into(), GExpr::Num(1 + r.below(2) as i64), inner));
+                    let e = bin("add", var(&vn(i)), var(&vn(i - 1)));
+                    stmts.push(GStmt::Row(mk_row(r, GEntry::Expr(e))));
+                }
             }
         }
         2 => {
